@@ -274,3 +274,26 @@ def c01_targeted_cases(rng, count=None, maxdeg=12, big=False):
         keep = sorted(rng.sample(range(len(out)), count))
         out = [out[i] for i in keep]
     return out
+
+
+def c01_tiny_root_cases(rng, count=2):
+    """One root far below the double range (10^-E, E in 310..400), the others O(1); overall scaling 10^0 / 10^+-160.
+    (The float phase marks the tiny root 'not representable as floating point' and hands it to the DPE phase.)
+    Each case carries max_bits: the resolution the oracle may need for a disc around 10^-E."""
+    out = []
+    for j in range(count):
+        E = rng.randint(310, 400)
+        tiny = (Fr(1, 10 ** E) * rng.choice([1, -1, 3]), Fr(0))
+        others = list(dict.fromkeys([(Fr(rng.randint(-4, 4) or 1), Fr(rng.randint(-2, 2))) for _ in range(rng.randint(2, 4))]))
+        sc = Fr(10) ** rng.choice([160, -160, 0, 160])
+        c = from_roots_case("tinyroot%d_E%d" % (j, E), "root-below-double-range", [tiny] + others, rng, kind="Rational")
+        coeffs = [(a * sc, b * sc) for a, b in c["coeffs"]]
+        c = mono_case(c["name"], c["cls"], coeffs, rng, simple=True, roots=c["roots"], kind="Rational")
+        c["max_bits"] = 2400
+        out.append(c)
+    # the input on which three of four discs collapsed onto the tiny root (classic algorithm, goal approximate)
+    rs = [(Fr(1, 10 ** 329), Fr(0)), (Fr(1), Fr(0)), (Fr(2), Fr(0)), (Fr(-3), Fr(1))]
+    c = mono_case("tinyroot_regress", "root-below-double-range", S.poly_from_roots(rs, (Fr(10 ** 160), Fr(0))), rng, simple=True, roots=rs, kind="Rational")
+    c["max_bits"] = 2400
+    out.append(c)
+    return out
